@@ -149,16 +149,16 @@ def vmin(*a, **kw):
         if not a:
             return min(a, **kw)
     if kw:
-        return min(*a, **kw)
+        return min(a, **kw)
     if any(is_sym(x) for x in a):
         if not all(_num(x) for x in a):
             # objects with symbolic comparison (UnitValue...): python semantics by forking
-            return min(*a)
+            return min(a)
         r = a[0]
         for x in a[1:]:
             r = _pick(x, r, zreal(x) < zreal(r))
         return r
-    return min(*a)
+    return min(a)
 
 
 def vmax(*a, **kw):
@@ -170,15 +170,15 @@ def vmax(*a, **kw):
         if not a:
             return max(a, **kw)
     if kw:
-        return max(*a, **kw)
+        return max(a, **kw)
     if any(is_sym(x) for x in a):
         if not all(_num(x) for x in a):
-            return max(*a)
+            return max(a)
         r = a[0]
         for x in a[1:]:
             r = _pick(x, r, zreal(x) > zreal(r))
         return r
-    return max(*a)
+    return max(a)
 
 
 def vsum(seq, start=0):
